@@ -26,8 +26,8 @@ ONE_D = {"fft", "ifft", "rfft", "irfft", "hfft", "ihfft"}
 REAL_IN = {"rfft", "rfft2", "rfftn", "ihfft"}
 SHAPES = {"quick": [(1,), (2,), (5,), (8,), (3, 4), (4, 5), (1, 8), (2, 3, 4), (3, 2, 5)],
           "thorough": [(1,), (2,), (3,), (5,), (8,), (3, 4), (4, 5), (1, 8), (2, 2), (5, 3), (2, 3, 4), (3, 2, 5), (4, 1, 3)]}
-DTYPES_C = ["complex64", "complex128", "float32", "float64", "int8", "bool"]
-DTYPES_R = ["float32", "float64", "int8", "int16", "bool", "int64"]
+DTYPES_C = ["complex64", "complex128", "float32", "float64", "int8", "bool", "float16"]
+DTYPES_R = ["float32", "float64", "int8", "int16", "bool", "int64", "float16"]
 
 
 def describe(tier):
@@ -92,6 +92,8 @@ def kwargs_menu(name, shape):
                     out.append(kw)
         out.append({})
         out.append({"axis": -1, "norm": "ortho"})
+        out.append({"workers": 2})                       # keywords of scipy.fft only (the reference's own interface)
+        out.append({"overwrite_x": False, "axis": 0})
     else:
         two = name.endswith("2")
         axes_opts = [None] + [p for p in itertools.permutations(range(nd), 2)]
@@ -152,7 +154,8 @@ def fft_case(case, res):
         for kw in kwargs_menu(name, shape):
             sub = {"dtype": dt, "kw": {k: (list(v) if isinstance(v, tuple) else v) for k, v in kw.items()}}
             want, werr = call(f_sp, x, kw)
-            alt, aerr = call(f_np, x, kw)
+            sp_only = any(k in kw for k in ("workers", "overwrite_x"))
+            alt, aerr = (want, werr) if sp_only else call(f_np, x, kw)
             key = (name, shape, dt, tuple(sorted((k, str(v)) for k, v in kw.items())))
             if werr is None:
                 nel0 = max(1, int(np.prod(want.shape)))
@@ -162,7 +165,22 @@ def fft_case(case, res):
                     # reference libraries themselves disagree
                     res.skipped["numpy.fft and scipy.fft disagree on this call (unconstrained)"] += 1
                     continue
+            if not kw and werr is None:
+                # a Quantity as input: whatever scipy.fft returns for it (a bare array), pb.fft returns the same kind of object
+                import astropy.units as _u
+                try:
+                    wq, gq = f_sp(x * _u.m), f_pb(x * _u.m)
+                    res.transitions += 1
+                    if type(gq) is not type(wq) or np.asarray(gq).dtype != np.asarray(wq).dtype or not np.array_equal(np.asarray(gq), np.asarray(wq)):
+                        res.violation(f"pb.fft.{name}|Quantity input", f"returns {type(gq).__name__} {np.asarray(gq).dtype}, scipy.fft returns "
+                                      f"{type(wq).__name__} {np.asarray(wq).dtype} [{sub}]", case, sub)
+                    else:
+                        res.hits["Quantity input"] += 1
+                except Exception:
+                    pass
             for backend in ("numpy", "dask"):
+                if sp_only and backend == "dask":
+                    continue
                 res.state(key + (backend,))
                 if backend == "numpy":
                     xin = x
@@ -263,8 +281,10 @@ def stft_case(case, res):
     nchan, align, N = case["nchan"], case["align"], case["N"]
     srq, fcq = 1 * u.MHz, 400 * u.MHz
     rng = np.random.default_rng(20)
-    for trailing in ((), (2,)):
+    for trailing in ((), (2,), (2, 3), (2, 2)):
         for P in sorted({1, 2, 3, 4, 5, N}):
+            if len(trailing) == 2 and P not in (2, 3, N):
+                continue
             nt = N // P
             cls = "DualPolarizationSignal" if trailing else "BasebandSignal"
             # ---- inversion on a generic payload
@@ -434,7 +454,7 @@ def check_case(case):
 def main(argv=None):
     return report.run_check(
         PID, gen_cases=gen_cases, check_case=check_case, describe=describe,
-        required_hits=["buffer overwritten between calls", "optional arguments omitted / spelled", "dask lazy result", "reference raises: pb raises too", "unknown name -> AttributeError",
+        required_hits=["buffer overwritten between calls", "optional arguments omitted / spelled", "Quantity input", "dask lazy result", "reference raises: pb raises too", "unknown name -> AttributeError",
                        "tone under the right label", "truncated tail", "odd nperseg", "nperseg == length",
                        "non-center alignment on even nchan"],
         assumptions=["scipy.fft.<name> is the statement's reference; numpy.fft and the long-double DFT definition are independent "
